@@ -116,7 +116,7 @@ inductive Auth where
   | ok (p : Plan)
   deriving Repr, DecidableEq
 
-def authorizeSign (prov : Prov) (t : Token) (o : Oidc) : Auth :=
+def authorizeClaims (prov : Prov) (t : Token) (o : Oidc) : Auth :=
   match prov with
   | .jwk | .x5c =>
     match t.ssh with
@@ -134,6 +134,10 @@ def authorizeSign (prov : Prov) (t : Token) (o : Oidc) : Auth :=
     let data : Data := if o.email = [] then ⟨.user, t.sub, []⟩ else ⟨.user, o.email, o.usernames⟩
     .ok { checks := [if admin then .require else .matches ⟨sUser, [], []⟩]
           data := data, tpl := if admin then .admin else .default }
+
+/-- `authorizeToken` (JWK, X5C) and `OIDC.AuthorizeSSHSign` refuse an empty subject first -/
+def authorizeSign (prov : Prov) (t : Token) (o : Oidc) : Auth :=
+  if t.sub = [] then .unauthorized else authorizeClaims prov t o
 
 /-- the unsigned certificate: `CertType` as a number (1 user, 2 host, anything else invalid) -/
 structure Cert where
